@@ -15,11 +15,12 @@ def run(tier, seed, t0):
     jobs = []
     reps = 60 if thorough else 16
     for i in range(4):
-        jobs.append(Job("single-%d" % i, "drv_c05", "optim", "spqlios-fma", ["--mode", "single", "--reps", reps, "--seed", seed, "--shard", i], timeout=1800))
+        jobs.append(Job("single-%d" % i, "drv_c05", "optim", "spqlios-fma", ["--mode", "single", "--reps", reps, "--seed", seed, "--shard", i, "--locale", i % 2], timeout=1800))
     for i in range(2):
-        jobs.append(Job("sequence-%d" % i, "drv_c05", "optim", "spqlios-fma", ["--mode", "sequence", "--reps", 120 if thorough else 30, "--seed", seed, "--shard", i], timeout=1800))
+        jobs.append(Job("sequence-%d" % i, "drv_c05", "optim", "spqlios-fma", ["--mode", "sequence", "--reps", 120 if thorough else 30, "--seed", seed, "--shard", i, "--locale", i % 2], timeout=1800))
     for i, (fl, be) in enumerate([("optim", "spqlios-fma"), ("optim", "fftw")] + ([("debug", "nayuki-portable"), ("asan", "spqlios-fma")] if thorough else [])):
         jobs.append(Job("handoff-%s-%s" % (fl, be), "drv_c05", fl, be, ["--mode", "handoff", "--reps", 12 if thorough else 5, "--seed", seed + 20 + i], timeout=3000, meta={"leaks": False}))
+    jobs.append(Job("longrun", "drv_c05", "optim", "spqlios-fma", ["--mode", "longrun", "--count", 140000 if thorough else 70000, "--seed", seed + 30], timeout=3600, meta={"leaks": False}))
     jobs.append(Job("single-debug", "drv_c05", "debug", "nayuki-portable", ["--mode", "single", "--reps", 6, "--seed", seed + 9], timeout=1800))
     jobs.append(Job("sequence-debug", "drv_c05", "debug", "nayuki-portable", ["--mode", "sequence", "--reps", 10, "--seed", seed + 9], timeout=1800))
     bes = vbuild.BACKENDS if thorough else ["spqlios-fma", "nayuki-portable"]
